@@ -916,7 +916,13 @@ def install(names=None):
                 {"self_id": id(self), "abs_only": _msdiff(ea, er)[:3], "rel_only": _msdiff(er, ea)[:3]})
             rec("C04", "seq_inv", "views_duration", da == dr, {"self_id": id(self), "dur": (da, dr)})
             return True
+        # invalidate_abs / invalidate_rel ARE the repair step of a mutation (the message generators call them when they are
+        # resumed after the caller edited a yielded message): the invariant must not be evaluated at their entry, where
+        # the deliberately transient state "edited, not yet invalidated" is still in place
+        keep = {n: Sequence.__dict__[n] for n in ("invalidate_abs", "invalidate_rel")}
         icontract.invariant(seq_inv, error=MonitorBug)(Sequence)
+        for n, f in keep.items():
+            setattr(Sequence, n, f)
 
     # ------------------------------------------------------------------ C11: Message.time type sanitizer
     if "time_type" in todo:
